@@ -795,6 +795,8 @@ Proof.
     destruct (nth_error (wire w) (N.to_nat k)); [|assumption]. apply WReach_set_wire, H.
   - (* EDup *)
     destruct (nth_error (wire w) (N.to_nat k)); [|assumption]. apply WReach_fabric_deliver, H.
+  - (* EFlush *)
+    apply fold_left_inv; [apply WReach_set_wire, H|]. intros a b Ha. apply WReach_fabric_deliver, Ha.
   - destruct (get_host w h); assumption.
   - destruct (get_host w h); assumption.
   - (* EUdpBind *)
